@@ -524,6 +524,66 @@ def window_case(args):
     return {"exc": None, "recs": recs}
 
 
+# ------------------------------------------------------------------------------------------------
+# units: the 2D integrals are dimensionless, so the same bath written in another unit of time (cutoff and temperature
+# multiplied by s, all times divided by s) must give the same cells.  Oracle: the library's own values in units of
+# order one (which the rest of this check compares with the spectral quadrature).
+
+SCALES = [1.7e3, 1e-2, 1e6]        # 1.7e3: times that are not short decimal fractions
+SCALE_TOL = 1e-5            # relative to |cell|; measured <= 1e-7 at s = 1.7e3 and 1e-2
+
+
+def scale_case(args):
+    ctype, zeta, tk, s_ = args
+    temp = float(tk)
+    recs = []
+    nwarn = 0
+    try:
+        a = oq.PowerLawSD(0.25, zeta, 4.0, ctype, temperature=temp)
+        b = oq.PowerLawSD(0.25, zeta, 4.0 * s_, ctype, temperature=temp * s_)
+        for dt in (0.3, 0.05):
+            for name, shape, k, k2 in CELLS:
+                kw = {} if k2 is None else {"time_2": k2 * dt}
+                kwb = {} if k2 is None else {"time_2": k2 * dt / s_}
+                va = complex(a.correlation_2d_integral(dt, k * dt, shape=shape, **kw))
+                with warnings.catch_warnings(record=True) as wl:
+                    warnings.simplefilter("always")
+                    vb = complex(b.correlation_2d_integral(dt / s_, k * dt / s_, shape=shape, **kwb))
+                nwarn += len(wl)
+                recs.append((f"{name}@dt={dt}", abs(va - vb) / abs(va)))
+    except Exception as ex:  # noqa
+        return {"exc": f"{type(ex).__name__}: {ex}"[:160], "recs": recs, "nwarn": nwarn}
+    return {"exc": None, "recs": recs, "nwarn": nwarn}
+
+
+# ------------------------------------------------------------------------------------------------
+# lattice of time arguments: eta(t) of the T = 0 exponential-cutoff power laws against a 300-point Gauss-Legendre
+# integral of the closed-form C(tau), for t = k/n.  The library's adaptive quadrature (QUADPACK, no warning) is
+# sporadically less accurate than requested at isolated arguments (measured: ~0.1-1 % of the points off by more than
+# 1e-8 relative, worst 1e-5); the family reports that distribution and flags anything beyond LATTICE_TOL.
+
+LATTICE_TOL = 1e-4
+
+
+def lattice_case(args):
+    zeta, wc, n_lo, n_hi = args
+    x, w = O.gl(300)
+    lib = oq.PowerLawSD(0.25, zeta, wc, "exponential", temperature=0.0)
+    worst, above, tot, where = 0.0, 0, 0, None
+    for n in range(n_lo, n_hi):
+        for k in range(1, 81):
+            t = k / n
+            e = complex(lib.eta_function(t))
+            s_ = 0.5 * t * (x + 1)
+            ref = complex(np.sum(0.5 * t * w * (t - s_) * np.array([complex(O.closed_c(0.25, zeta, wc, float(v))) for v in s_])))
+            rel = abs(e - ref) / max(abs(ref), 1e-3)
+            tot += 1
+            above += rel > 1e-8
+            if rel > worst:
+                worst, where = rel, (k, n)
+    return {"worst": worst, "where": where, "above_1e-8": int(above), "points": tot}
+
+
 WINDOW_TOL = 1e-4          # relative to |C(0)| dt^2; the library integrates a discontinuous integrand with dblquad
 
 
@@ -546,6 +606,30 @@ def run(tier, seed):
                                   f"the callable by {dev:.2e} |C(0)| dt^2", {"kind": "window", "args": list(j)}))
             else:
                 wmax = max(wmax, dev)
+    sj = [(ct, z, tk, s_) for ct in ("exponential", "gaussian", "hard") for z in (1.0, 3.0, 0.5) for tk in ("0", "2.0")
+          for s_ in SCALES]
+    sres = pmap(scale_case, sj, seed=seed)
+    smax = 0.0
+    for j, r in zip(sj, sres):
+        if r["exc"]:
+            rep.add(Violation(f"PowerLawSD|unit-scale|{j[0]}|cutoff-{4.0 * j[3]:g}|exception", f"{j}: {r['exc']}", {"kind": "scale", "args": list(j)}))
+            continue
+        bad = [x for x in r["recs"] if not x[1] <= SCALE_TOL]
+        if bad:
+            rep.add(Violation(f"PowerLawSD|unit-scale|{j[0]}|cutoff-{4.0 * j[3]:g}|cells-differ-from-the-same-bath-in-units-of-order-one",
+                              f"zeta={j[1]} T={j[2]}*s cutoff=4*s, times/s with s={j[3]:g}: {len(bad)} of {len(r['recs'])} cells differ, "
+                              f"worst {max(x[1] for x in bad):.1e} relative ({bad[0][0]}); {r['nwarn']} scipy IntegrationWarnings",
+                              {"kind": "scale", "args": list(j)}))
+        else:
+            smax = max(smax, max(x[1] for x in r["recs"]))
+    lj = [(z, wc, lo, lo + 6) for z in (1.0, 3.0, 0.5) for wc in (1.0, 4.0)
+          for lo in (range(50, 122, 6) if tier == "thorough" else (70, 76))]
+    lres = pmap(lattice_case, lj, seed=seed)
+    for j, r in zip(lj, lres):
+        if r["worst"] > LATTICE_TOL:
+            rep.add(Violation("PowerLawSD|eta-on-the-time-lattice|exponential|T=0|differs-from-closed-form",
+                              f"zeta={j[0]} wc={j[1]}: eta({r['where'][0]}/{r['where'][1]}) off by {r['worst']:.1e} relative",
+                              {"kind": "lattice", "args": list(j)}))
     cases, mats = build_cases(tier)
     res = pmap(eval_case, cases, chunksize=1, seed=seed)
     mres = pmap(eval_matsubara, mats, chunksize=1, seed=seed)
@@ -639,6 +723,10 @@ def run(tier, seed):
     print(f"[C12] worker cpu {cpu:.0f} s", file=sys.stderr)
     rep.coverage = {
         "evaluations": n_eval + sum(len(r["recs"]) for r in wres),
+        "time_lattice_family": {"points": sum(r["points"] for r in lres), "tolerance": LATTICE_TOL,
+                                "points_off_by_more_than_1e-8_relative": sum(r["above_1e-8"] for r in lres),
+                                "worst_relative_deviation": max(r["worst"] for r in lres)},
+        "unit_scale_family": {"cases": len(sj), "scales": SCALES, "max_rel_dev_passing": smax, "tolerance": SCALE_TOL},
         "finite_support_custom_correlations": {"cases": len(wj), "max_dev_over_C0dt2": wmax, "tolerance": WINDOW_TOL},
         "objects": len(objects(tier)),
         "object_x_dt_cases": len(cases), "matsubara_cases": len(mats),
@@ -694,6 +782,20 @@ def run(tier, seed):
 def replay(rp):
     kind = rp["kind"]
     ob = rp.get("ob")
+    if kind == "lattice":
+        r = lattice_case(tuple(rp["args"]))
+        return {"obs": r, "violation": "PowerLawSD|eta-on-the-time-lattice|exponential|T=0|differs-from-closed-form"
+                if r["worst"] > LATTICE_TOL else None}
+    if kind == "scale":
+        j = rp["args"]
+        r = scale_case(tuple(j))
+        bad = [x for x in r["recs"] if not x[1] <= SCALE_TOL]
+        v = None
+        if r["exc"]:
+            v = f"PowerLawSD|unit-scale|{j[0]}|cutoff-{4.0 * j[3]:g}|exception"
+        elif bad:
+            v = f"PowerLawSD|unit-scale|{j[0]}|cutoff-{4.0 * j[3]:g}|cells-differ-from-the-same-bath-in-units-of-order-one"
+        return {"obs": [len(bad), r["nwarn"]], "violation": v}
     if kind == "window":
         r = window_case(tuple(rp["args"]))
         bad = [x for x in r["recs"] if x[1] > WINDOW_TOL]
